@@ -33,6 +33,8 @@ SUBSET = [
     "__typename, __link, @loadable on client fields",
     "argument values: $variable, integer (incl. negative), string, true/false, null, nested {object} literals (the iso syntax has no "
     "enum/list/float literals); variables of scalar, enum, input-object, list, non-null and nested-list types",
+    "iso convention (confirmed): a selection marked @loadable may omit required arguments -- they are supplied when the field is "
+    "loaded -- so `missing-required-argument` is only claimed for selections that are not @loadable",
     "mutants: exactly one BreakRule(r) edit per program, at every applicable position of the edited declarations, r in "
     + ", ".join(RULE_TEXT.values()),
     "NOT covered: literals in list-typed positions (GraphQL list input coercion), directives other than @loadable, exposeField-generated "
